@@ -16,10 +16,18 @@ def run(tier, seed, replay=None, pid="C04"):
     # quick: one faulty sync, with a second fault at the next request from a small set of kinds; thorough: two faulty syncs in a row
     # (single faults), and -- C04 -- one faulty sync with every pair of kinds
     c = dict(N=3, Segs="{0,1,2}", Kinds=kinds, MaxFaulty=1 if tier == "quick" else 2, FIXED=True, EXPORT=True, MaxAddrs=2 if pid == "C04" else 1,
-             PairKinds='{"stall","s500"}' if (pid == "C04" and tier == "quick") else "{}")
+             PairKinds='{"stall","s500"}' if (pid == "C04" and tier == "quick") else "{}", Depths="{0}")
     r = vlib.tlc("SyncFaults", (pid + ".cfg", vlib.cfg_text(c, INV)), timeout=7000, tag=pid.lower(), extra=["-maxSetSize", "8000000"])
     ck.add_tlc("SyncFaults", r, "mode x trigger x segment size x fault kind x request index (%d faulty sync(s)) then a clean sync: store sound, "
                "failure leaves latest/notifications/cache as required, clean retry converges" % c["MaxFaulty"])
+    if pid == "C04":
+        # a depth limit shorter than the chain: the segment that uses the limit up ends the sync -- with its hooks counted
+        rd = vlib.tlc("SyncFaults", ("C04depth.cfg", vlib.cfg_text(dict(c, Segs="{1,2}", Depths="{2}", MaxFaulty=1, PairKinds="{}", MaxAddrs=1,
+                                                                          Kinds='{"hookfail","hookcancel","s500","reset","cancel","truncated"}'), INV)), timeout=7000, tag="c04depth")
+        ck.add_tlc("SyncFaults/depth", rd, "segmented syncs under a depth limit of 2 on the chain of 3: faults and failing hooks in the segment that reaches the limit")
+        with open(os.path.join(r.workdir, "c04_behaviours.ndjson"), "a") as f:
+            f.write(open(os.path.join(rd.workdir, "c04_behaviours.ndjson")).read())
+        shutil.rmtree(rd.workdir, ignore_errors=True)
     if pid == "C04" and tier == "thorough":
         r2 = vlib.tlc("SyncFaults", ("C04pairs.cfg", vlib.cfg_text(dict(c, MaxFaulty=1, PairKinds=ALL), INV)), timeout=7000, tag="c04pairs", extra=["-maxSetSize", "8000000"])
         ck.add_tlc("SyncFaults/pairs", r2, "one faulty sync with every pair of fault kinds at two consecutive requests")
